@@ -1,7 +1,8 @@
-import LunaVerif.Model.Device.DevCycProto
-open LunaVerif LunaVerif.Proto LunaVerif.DevCyc.Proto
+import LunaVerif.Model.Device.DevDetProto
+open LunaVerif LunaVerif.Proto LunaVerif.DevDet.Proto
 
 /-- Driver of C20: sub-model 0 = UTMI transmit multiplexer (cycle level), 1 = full-device event model
 (`LunaVerif/Model/Device/FullProto.lean`), 2 = cycle-level composition of the device's packet layer
-(`LunaVerif/Model/Device/DevCycProto.lean`). -/
+(`LunaVerif/Model/Device/DevCycProto.lean`), 3 = the CLOSED cycle-level device (packet layer + endpoint models + control
+endpoint + setup decoder + handshake detector, `LunaVerif/Model/Device/DevDetProto.lean`). -/
 def main : IO Unit := runDriver (σ := D) dInit dStep
